@@ -214,6 +214,100 @@ def _probe(spec):
     return lines
 
 
+# ------------------------------------------------------------------ structure-level probes (model tie)
+
+VL_MAX = 4
+_WELL = {gg.FIRST: 0, gg.REST: 1, gg.NIL: 2}
+
+
+def _encode_graph(spec):
+    """terms -> wire tokens: i<n> (i0 rdf:first, i1 rdf:rest, i2 rdf:nil), l<n>, b<n>; returns (tokens, bnode map)"""
+    ids = {"i": dict((k, v) for k, v in _WELL.items()), "l": {}, "b": {}}
+
+    def tok(t):
+        kind = t[0]
+        key = t[1] if kind != "l" else (t[1], t[2], (t[3] or "").lower())
+        d = ids[kind]
+        if key not in d:
+            d[key] = len(d)
+        return f"{kind}{d[key]}"
+
+    toks = []
+    for tr in spec["triples"]:
+        toks += [tok(x) for x in tr]
+    return toks, ids["b"]
+
+
+def labelled_bnodes(text):
+    """Independent mini-scanner of Turtle-family text: the set of blank-node labels that occur (`_:label`),
+    skipping IRIs `<…>` and string literals (short `"…"` and long `\"\"\"…\"\"\"`, with backslash escapes)."""
+    out, i, n = set(), 0, len(text)
+    while i < n:
+        c = text[i]
+        if c == "<":
+            j = text.find(">", i + 1)
+            i = n if j < 0 else j + 1
+        elif c == '"':
+            if text.startswith('"""', i):
+                i += 3
+                while i < n and not text.startswith('"""', i):
+                    i += 2 if text[i] == "\\" else 1
+                i += 3
+            else:
+                i += 1
+                while i < n and text[i] != '"':
+                    i += 2 if text[i] == "\\" else 1
+                i += 1
+        elif c == "_" and text.startswith("_:", i):
+            j = i + 2
+            while j < n and (text[j].isalnum() or text[j] in "_-."):
+                j += 1
+            lab = text[i + 2:j].rstrip(".")
+            out.add(lab)
+            i = i + 2 + max(1, len(lab))
+        else:
+            i += 1
+    return out
+
+
+def _struct_probe(spec):
+    """-> [(model line, expected observation)]"""
+    if not spec["triples"]:
+        return []
+    from rdflib.plugins.serializers.turtle import TurtleSerializer
+    lines = []
+    toks, bmap = _encode_graph(spec)
+    gtxt = " ".join(toks)
+    g = gg.build(spec)
+    # isValidList on the list-head candidates (blank nodes carrying an rdf:first), nothing serialized yet
+    heads = []
+    for s_, p_, _o in spec["triples"]:
+        if s_[0] == "b" and p_[1] == gg.FIRST and s_[1] not in heads:
+            heads.append(s_[1])
+    if heads:
+        ser = TurtleSerializer(g)
+        ser.reset()
+        ser.preprocess()
+        for h in heads[:VL_MAX]:
+            try:
+                r = _with_timeout(lambda: ser.isValidList(BNode(h)), 2.0)
+                exp = "true" if r else "false"
+            except _FmtTimeout:
+                exp = "hang"
+            lines.append((f"vl b{bmap[h]} {gtxt}", exp))
+    # which blank nodes the writers left unlabelled must satisfy Pre
+    kw = {"base": spec["base"]} if spec.get("base") else {}
+    for fmt in ("turtle", "longturtle", "n3"):
+        try:
+            text = _with_timeout(lambda: g.serialize(format=fmt, **kw), FMT_TIMEOUT_S)
+        except Exception:
+            continue
+        hidden = sorted(set(bmap) - labelled_bnodes(text), key=lambda b: bmap[b])
+        hs = ",".join(f"b{bmap[b]}" for b in hidden) or "-"
+        lines.append((f"pre {hs} {gtxt}", "ok"))
+    return lines
+
+
 def _read_back(text, fmt):
     """parse `<s> <p> text .` with rdflib's reader for fmt; -> 'some cps' | 'none'"""
     doc = f"<urn:x-probe-s> <urn:x-probe-p> {text} .\n"
@@ -247,8 +341,13 @@ def run_impl(case):
         else:
             viol.append(f"{st}-{fmt}: {detail}")
     probe = _probe(spec)
-    obs = [exp for _l, exp, _p in probe]
+    sprobe = _struct_probe(spec)
+    obs = [exp for _l, exp, _p in probe] + [exp for _l, exp in sprobe]
     stats["probe_lines"] = len(probe)
+    stats["probe_isValidList"] = sum(1 for l, _e in sprobe if l.startswith("vl "))
+    stats["probe_isValidList_true"] = sum(1 for l, e in sprobe if l.startswith("vl ") and e == "true")
+    stats["probe_pre"] = sum(1 for l, _e in sprobe if l.startswith("pre "))
+    stats["probe_pre_hidden_nonempty"] = sum(1 for l, _e in sprobe if l.startswith("pre b"))
     stats["probe_shorthand_tokens"] = sum(1 for l, _e, _p in probe if l.startswith("relex "))
     key = hashlib.sha1(json.dumps([sorted(map(json.dumps, spec["triples"])), spec.get("prefixes"), spec.get("bind"),
                                    spec.get("base")], sort_keys=True).encode()).hexdigest()
@@ -263,15 +362,16 @@ def gen_case(rng, tier, i):
 
 
 def model_lines(case):
-    return [l for l, _e, _p in _probe(case["spec"])]
+    return [l for l, _e, _p in _probe(case["spec"])] + [l for l, _e in _struct_probe(case["spec"])]
 
 
 def select_model_obs(case, out):
     """The model's own encodings (`ntenc`, `tenc`) are handed to rdflib's readers; the observation is what they read."""
     res = []
-    for (_l, _e, post), o in zip(_probe(case["spec"]), out):
+    probe = _probe(case["spec"])
+    for (_l, _e, post), o in zip(probe, out):
         res.append(_read_back(uncps(o), post) if post and o != "bad-op" else o)
-    return res
+    return res + list(out[len(probe):])
 
 
 def shrink(case):
